@@ -373,7 +373,7 @@ PARSE_RULE = ("every token sequence of length <= 3 (thorough: 4, 1/4 sampled by 
               "distinct = distinct (op, config, input) lines.")
 
 PROPS["C09"] = dict(
-    lean_targets=["SJ.Props.C09", "SJ.Props.TypedSrc", "SJ.Props.C09Stream", "SJ.Props.StreamTyped", "SJ.Audit.C09"],
+    lean_targets=["SJ.Props.C09", "SJ.Props.TypedSrc", "SJ.Props.C09Stream", "SJ.Props.StreamTyped", "SJ.Props.C09Tok", "SJ.Audit.C09"],
     configs=dict(quick=["d", "ap", "rv"], thorough=["d", "ap", "fr", "po", "rv"]),
     gen_keys=["error.", "de."],
     rule=PARSE_RULE + " C09 adds multi-line documents (spaces turned into newlines) with 4 mutations each; the three sources' "
@@ -688,7 +688,7 @@ PROPS["C19"] = dict(
 
 PROPS["C01"] = dict(
     lean_targets=["SJ.Props.C01", "SJ.Props.C01Iff", "SJ.Props.C01Ap", "SJ.Props.C01Rv", "SJ.Audit.C01"],
-    configs=dict(quick=["d", "ap", "rv"], thorough=["d", "ap", "rv", "fr", "po", "ud"]),
+    configs=dict(quick=["d", "ap", "rv"], thorough=["d", "ap", "rv", "fr", "po", "ud", "rvap"]),
     gen_keys=["error.", "de."],
     rule=PARSE_RULE + " Accept/reject of the crate is compared with the model and with the independent recursive-descent "
          "recogniser + side conditions (Spec.Rec, Spec.Canon.sideConditions).",
@@ -1601,3 +1601,11 @@ PROPS["C12"]["level_text"] += (
     "whose items are accepted in place (ItemOK) with whitespace between and the delimiter rule yields exactly v1 .. vn with "
     "byte_offset() just past each item, then None at the end of the input for every further call; c12_typed_values_agree - the same "
     "for item texts of the C16 / C04 text leg (Agree1) separated by non-empty whitespace.")
+_add("C09", "partial", [
+    "Value target under arbitrary_precision / raw_value: c09_slice_reader is a theorem about Model.Machine; for the faithful models "
+    "(Model.MachineAp / Model.MachineRv, used by op pv in those configurations) it holds on every input without a private-token first key "
+    "(c09_rv_slice_reader_tokenfree) and FAILS where the value behind a token is not a string: serde's invalid type is positioned by "
+    "fix_position with the offending byte only peeked, so the reader's column is the slice's + 1 (c09_rv_token_not_string_reader_later, "
+    "c09_ap_token_not_string_reader_later; witnesses c09_token_sources_differ; open finding C09-private-token-invalid-type-position, "
+    "exercised by the thorough tier, which runs the private-token generators of C01 with the full outcome compared)",
+])
